@@ -71,6 +71,9 @@ func (c *Case) optsText() string {
 
 // newCase makes the case own its tree.
 func newCase(fam string, t *T, flavour string) *Case {
+	if flavour == "gen" && t.bigUint() {
+		flavour = "simple" // no gen.Int holds an unsigned value of 2^63 or more
+	}
 	return &Case{Fam: fam, T: t.clone(), Flavour: flavour}
 }
 
@@ -297,7 +300,7 @@ func main() {
 		os.Exit(3)
 	}
 	rep.Rule = "cases: corpus; AppendJSONString on every 1- and 2-byte string over class representatives, the string pool and random strings, html-safe on/off; " +
-		"utf8 decoding boxes; boundary trees (every pool string as value and key, int64/float shapes, nesting past the indentation strings, omitted first/middle/last members, rows with missing columns, width boundaries) x option lattice; " +
+		"utf8 decoding boxes; boundary trees (every pool string as value and key, int64/float shapes, every Go integer type (int8…int64, uint8…uint64, int, uint) at and around its boundaries incl. 2^63-1, 2^63, 2^64-1, nesting past the indentation strings, omitted first/middle/last members, rows with missing columns, width boundaries) x option lattice; " +
 		"seeded random trees and row tables x random options; every tree as simple and gen values; every oj case through JSON, Marshal, Writer.JSON and Write with WriteLimit 1,2,3,7,64,1024 " +
 		"(unsorted objects with 2+ members: per run, under the member order that run chose); duplicates dropped by 64-bit hash; distinct_nontrivial counts distinct cases whose tree has a container"
 	if err := rep.Write(*outPath); err != nil {
@@ -324,6 +327,9 @@ func caseFromText(fam, flavour, opts, tree string) (*Case, error) {
 	t, err := fromCanon(tree)
 	if err != nil {
 		return nil, err
+	}
+	if flavour == "gen" && t.bigUint() {
+		return nil, fmt.Errorf("an unsigned value of 2^63 or more has no gen form")
 	}
 	c := &Case{Fam: fam, T: t, Flavour: flavour}
 	switch fam {
